@@ -148,7 +148,7 @@ class Net:
     def _post(self, src, dst, msg, prio):
         self.posted += 1
         self.seq += 1
-        self.log.append(("post", src, dst, msg))
+        self.log.append(("post", src, dst, msg) if prio != 19 else ("reinject", src, dst, msg))
         ch = self.channels.setdefault((src, dst), deque())
         if prio == 19 and dst == src or (prio == 19):
             # re-injection of messages buffered before start / while paused: they must be
@@ -207,6 +207,17 @@ class Net:
                 key = max(en, key=lambda k: self.channels[k][0][2])
             elif policy == "first":
                 key = en[0]
+            elif policy.startswith("favor:"):
+                # adversarial but legal: one computation runs ahead - its own messages are delivered first, then the
+                # messages addressed to it, everything else in global posting order
+                fav = policy.split(":", 1)[1]
+                pool = [k for k in en if k[0] == fav] or [k for k in en if k[1] == fav] or en
+                key = min(pool, key=lambda k: self.channels[k][0][2])
+            elif policy.startswith("starve:"):
+                # the messages SENT BY one computation are delivered last
+                slow = policy.split(":", 1)[1]
+                pool = [k for k in en if k[0] != slow] or en
+                key = min(pool, key=lambda k: self.channels[k][0][2])
             elif policy == "rr":
                 key = en[n % len(en)]
             elif policy == "random":
